@@ -60,10 +60,21 @@ UserFixedHonouredOrBlocked ==      \* every selected slot that the user fixed ke
           /\ Len(last.out.nm) <= Len(last.t.slots)
 
 FirstFitIsLowest ==                \* a request with a single fully free slot gets the lowest feasible position
-    (last.out.st = "served" /\ Len(last.t.slots) = 1 /\ last.t.slots[1] = NoSel) =>
+    (Policy = "first_fit" /\ last.out.st = "served" /\ Len(last.t.slots) = 1 /\ last.t.slots[1] = NoSel) =>
        LET g == last.out.nm[1]
            busy == BusyOn(last.before, last.t.path)
        IN ~\E n \in Slots : n < g.n /\ OkAt(busy, n, g.m)
+
+LastFitIsHighest ==                \* ... and with the last_fit policy the highest one
+    (Policy = "last_fit" /\ last.out.st = "served" /\ Len(last.t.slots) = 1 /\ last.t.slots[1] = NoSel) =>
+       LET g == last.out.nm[1]
+           busy == BusyOn(last.before, last.t.path)
+       IN ~\E n \in Slots : n > g.n /\ OkAt(busy, n, g.m)
+
+\* a free N is never refused while some position is feasible, whatever the policy
+FreeSlotServedWhenFeasible ==
+    (last.out.st = "NO_SPECTRUM" /\ Len(last.t.slots) = 1 /\ last.t.slots[1] = NoSel) =>
+       ~\E n \in Slots : OkAt(BusyOn(last.before, last.t.path), n, NbWl(last.t) * Pcm(last.t))
 
 SameOnEveryOms ==                  \* the ranges just written are present on every OMS of the path
     last.out.st = "served" => \A o \in last.t.path : RangesOf(last.out.nm) \subseteq occ[o]
